@@ -46,6 +46,9 @@ func post(c *ev.Check, outs []*run.Outcome) {
 	c.Require("migrations_adopted", 1)
 	c.Require("overlap_bans_adopted_mid_round", 10*min)
 	c.Require("overlap_attempts_after_ban", 10*min)
+	c.Require("stall_rounds_stuck", 5)
+	c.Require("stall_later_round_observed", 5)
+	c.Require("banned_udp_ports_watched", 20*min)
 	if c.Tier == "thorough" {
 		c.SetExtra("exhaustive_subspaces", []map[string]interface{}{{
 			"what":       "every assignment of {refused, reset, short, badsig, success} to n configured servers, n = 1..5 (plus the all-banned configurations)",
